@@ -17,8 +17,10 @@ import (
 	"math/rand"
 	"net"
 	"net/netip"
+	"os"
 	"sort"
 	"strings"
+	"sync"
 	"time"
 
 	"github.com/fxamacker/cbor/v2"
@@ -676,6 +678,120 @@ func relay(rng *rand.Rand, vrole, prole, challenge, respFrom, ackFrom string) (r
 	return registered, detail
 }
 
+// overlap (HandshakeOverlap.tla): two connections between the same two routers - both dialled by D ("same"), or one by
+// each end ("cross", a simultaneous cross-connect) - whose handshakes proceed in lockstep: the proxies hold every
+// handshake message until the same message of the other connection is there too and let connection 1's pass first.
+// At either end the key-exchange steps of both connections then come before either finalize.  Whatever link is
+// registered at the end must carry traffic both ways, encrypted.
+func overlap(rng *rand.Rand, cross bool) (regD, regL, trafficOK, clear bool, detail string) {
+	world.InstallLogCapture()
+	w := world.NewWorld()
+	d := mkNode(w, "D", 0, "u", "s")
+	l := mkNode(w, "L", 1, "u", "s")
+	dd, dl := linkworld.StartDrain(d), linkworld.StartDrain(l)
+	defer dd.Stop()
+	defer dl.Stop()
+	var mu sync.Mutex
+	arr := map[string]int{}
+	gate := func(conn int) func(p *linkworld.Proxy, m linkworld.Msg) [][]byte {
+		return func(p *linkworld.Proxy, m linkworld.Msg) [][]byte {
+			if m.Idx > 3 {
+				return nil // the handshake is over
+			}
+			dir := m.Dir // in the cross case connection 2 is dialled by L: its "A" direction is L->D
+			if cross && conn == 2 {
+				dir = map[string]string{"A": "B", "B": "A"}[dir]
+			}
+			k := fmt.Sprintf("%s%d", dir, m.Idx)
+			mu.Lock()
+			arr[k]++
+			mu.Unlock()
+			deadline := time.Now().Add(2 * time.Second)
+			for time.Now().Before(deadline) {
+				mu.Lock()
+				n := arr[k]
+				mu.Unlock()
+				if n >= 2 {
+					break
+				}
+				time.Sleep(200 * time.Microsecond)
+			}
+			if conn == 2 {
+				time.Sleep(4 * time.Millisecond)
+			}
+			return nil
+		}
+	}
+	pd1 := linkworld.Start(d, l)
+	pd1.Proxy.SetHook(gate(1))
+	time.Sleep(8 * time.Millisecond)
+	var pd2 *linkworld.Pending
+	if cross {
+		pd2 = linkworld.Start(l, d)
+	} else {
+		pd2 = linkworld.Start(d, l)
+	}
+	pd2.Proxy.SetHook(gate(2))
+	get := func(pd *linkworld.Pending) (a, b linkworld.SetupRet) {
+		for i := 0; i < 2; i++ {
+			select {
+			case a = <-pd.DoneA:
+			case b = <-pd.DoneB:
+			case <-time.After(4 * time.Second):
+			}
+		}
+		return
+	}
+	a1, b1 := get(pd1)
+	a2, b2 := get(pd2)
+	detail = fmt.Sprintf("connection 1: dialler %v / listener %v; connection 2: dialler %v / listener %v", a1.Err, b1.Err, a2.Err, b2.Err)
+	time.Sleep(80 * time.Millisecond) // an end that gave up closes its connection: the other end's link goes with it
+	ld, ll := d.Peer.GetLink(l.ID.IP), l.Peer.GetLink(d.ID.IP)
+	regD = ld != nil && !ld.IsClosing()
+	regL = ll != nil && !ll.IsClosing()
+	trafficOK = true
+	if regD && regL {
+		dd.Take()
+		dl.Take()
+		var payloads [][]byte
+		for _, t := range []struct {
+			from, to *world.Node
+			dr       *linkworld.Drain
+		}{{d, l, dl}, {l, d, dd}} {
+			payload := make([]byte, 200)
+			rng.Read(payload)
+			payloads = append(payloads, payload)
+			want, err := linkworld.SendFrame(t.from, t.to, t.from.Peer.GetLink(t.to.ID.IP), frame.NetworkTraffic, payload)
+			if err != nil {
+				trafficOK = false
+				continue
+			}
+			t.dr.WaitN(1, 300*time.Millisecond)
+			got := t.dr.Take()
+			if len(got) != 1 || !bytes.Equal(got[0], want) {
+				trafficOK = false
+			}
+		}
+		for _, pd := range []*linkworld.Pending{pd1, pd2} {
+			for _, dir := range []string{"A", "B"} {
+				for _, pl := range payloads {
+					if bytes.Contains(pd.Proxy.RawBytes[dir], pl[:32]) {
+						clear = true
+					}
+				}
+			}
+		}
+	}
+	for _, n := range []*world.Node{d, l} {
+		for _, lk := range n.Peer.GetLinks() {
+			lk.Close(nil)
+		}
+	}
+	pd1.Proxy.Close()
+	pd2.Proxy.Close()
+	return
+}
+
 func run(c *vf.Ctx) {
 	c.Rule("M: TLC on Handshake: 16 universe/secret configurations without wire fault and, for the admissible configurations (no secret / same secret), one fault (drop, corrupt, truncate, duplicate, swap, replay-from-earlier-connection with and without lost receiver state, reflect) at each of the 3 message positions of both directions, every interleaving of the two directions. R: each (configuration, plan) run as a REAL link set-up of two real routers through a proxy that applies the plan to the real bytes (quick: one random authenticated byte per corrupt plan; thorough: every authenticated byte of each of the six messages, 2 bits). T: outcomes judged by TLC. distinct = distinct (configuration, plan, byte)")
 	c.Assume("signature / hash security symbolic in the model, real in the replay", "a set-up in which a message never arrives is ended by closing the connection after 250 ms of silence")
@@ -809,6 +925,33 @@ func run(c *vf.Ctx) {
 	}
 	c.Logf("insider behaviours executed; %d events", len(events))
 
+	// ---- two overlapping handshakes between the same routers (HandshakeOverlap)
+	for _, hc := range []struct {
+		cfg  string
+		want string
+	}{{"HandshakeOverlap_Current.cfg", ""}, {"HandshakeOverlap_PinnedShared.cfg", "OwnKeys"}, {"HandshakeOverlap_PinnedUnchecked.cfg", "LinkHasSession"}} {
+		hres, err := c.TLC("HandshakeOverlap", hc.cfg, vf.TLCOpts{Workers: 1})
+		if err != nil {
+			c.Fatal("M overlap %s: %v", hc.cfg, err)
+		}
+		c.AddModel(hres.Distinct, hres.Generated)
+		if hres.Violated != hc.want {
+			c.Broken("M overlap %s: expected violated=%q, TLC says %q", hc.cfg, hc.want, hres.Violated)
+		}
+	}
+	for rep := 0; rep < c.Pick(6, 60); rep++ {
+		cross := rep%2 == 1
+		regD, regL, tok, clear, detail := overlap(r.rng, cross)
+		c.Eval(1)
+		c.Distinct(fmt.Sprintf("overlap|%v|%d", cross, rep))
+		mode := map[bool]string{false: "same-dialler", true: "cross-connect"}[cross]
+		events = append(events, map[string]any{"ev": "overlap", "mode": mode, "regD": regD, "regL": regL, "trafficok": tok, "clear": clear, "detail": detail})
+		if os.Getenv("VERIF_C04_DEBUG") != "" {
+			c.Logf("overlap %s: regD=%v regL=%v traffic=%v clear=%v %s", mode, regD, regL, tok, clear, detail)
+		}
+	}
+	c.Stage("R-overlap", map[string]any{"runs": c.Pick(6, 60)})
+
 	// ---- a participant that is in a handshake with the router it wants to pass for (HandshakeRelay)
 	for _, hc := range []struct {
 		cfg  string
@@ -866,6 +1009,11 @@ func run(c *vf.Ctx) {
 		ev := events[rejectAt-1].(map[string]any)
 		what := "the outcome violates the handshake rules"
 		key := vf.Key(ev["op"], ev["dir"], ev["idx"])
+		if ev["ev"] == "overlap" {
+			c.Violation(vf.Key("overlap", ev["mode"], ev["regD"], ev["regL"], ev["trafficok"], ev["clear"]), fmt.Sprintf("two overlapping handshakes between the same routers (%v): the link that is registered does not carry the link-layer keys its own handshake agreed on (registered at D %v / at L %v, traffic both ways %v, payload in clear on the wire %v): %v", ev["mode"], ev["regD"], ev["regL"], ev["trafficok"], ev["clear"], ev["detail"]), ev, nil)
+			events = events[rejectAt:]
+			continue
+		}
 		if ev["ev"] == "relay" {
 			key = vf.Key("relay", ev["vrole"], ev["challenge"], ev["resp"], ev["ack"])
 			c.Violation(key, fmt.Sprintf("a link to a router that never spoke on the connection was registered: its response / ack, made for another router in a handshake running at the same time, was accepted: %v", ev), ev, nil)
